@@ -116,6 +116,9 @@ pub struct FontInfo {
     pub italic_angle: Option<f64>,
     /// fontinfo key -> value for the MVAR-tagged metrics set explicitly
     pub metrics: BTreeMap<&'static str, f64>,
+    /// openTypeOS2UnicodeRanges / openTypeOS2CodePageRanges: None = key absent, Some(vec![]) = explicitly empty
+    pub os2_unicode_ranges: Option<Vec<u32>>,
+    pub os2_codepage_ranges: Option<Vec<u32>>,
 }
 
 #[derive(Clone, Debug)]
@@ -189,6 +192,8 @@ pub struct Profile {
     pub rules: bool,
     /// naming facet: missing legacy names, non-RIBBI styles, colliding instance names, axis labels
     pub naming: bool,
+    /// explicit (possibly empty) OS/2 unicode / code page range lists in fontinfo
+    pub os2_ranges: bool,
 }
 
 impl Profile {
@@ -196,7 +201,7 @@ impl Profile {
     pub fn base() -> Profile {
         Profile { min_axes: 0, max_axes: 0, max_glyphs: 1, min_glyphs: 1, outlines: false, cubic: false, components: 0, transforms: false, mixed: false, sparse: 0,
             order_variety: false, non_export: false, metrics_class_a: false, vertical: false, half_coords: false, maps: false, awkward_axes: false, multi_codepoints: false, ps_names: false, anchors: false, kerning: false, instances: false, flat_maps: false, point_axis: false, weird_names: false,
-            latin_only: false, rules: false, naming: false }
+            latin_only: false, rules: false, naming: false, os2_ranges: false }
     }
     pub fn outlines() -> Profile {
         Profile { min_axes: 1, max_axes: 3, max_glyphs: 8, min_glyphs: 2, outlines: true, cubic: true, components: 4, transforms: true, mixed: true, sparse: 3,
@@ -541,6 +546,12 @@ impl SynthFont {
         if p.rules { gen_rules(&mut f, &mut rg); }
         let mut ng = g.fork(80);
         if p.naming { gen_naming(&mut f, &mut ng); }
+        let mut og2 = g.fork(4);
+        if p.os2_ranges {
+            let pick = |g: &mut Gen| -> Option<Vec<u32>> { match g.below(4) { 0 => Some(vec![]), 1 => Some(vec![0, 1]), 2 => Some(vec![0]), _ => None } };
+            f.sources[0].info.os2_unicode_ranges = pick(&mut og2);
+            f.sources[0].info.os2_codepage_ranges = pick(&mut og2);
+        }
         f
     }
 }
@@ -555,9 +566,12 @@ fn gen_kerning(f: &mut SynthFont, g: &mut Gen, half: bool) {
     if pool.len() < 2 || !g.chance(9, 10) { return; }
     let n = pool.len();
     let (ng1, ng2) = (g.below(4), g.below(4));
-    let mut base1: Vec<Option<usize>> = (0..n).map(|_| { let c = g.chance(1, 2); let k = g.below(ng1.max(1)); if ng1 > 0 && c { Some(k) } else { None } }).collect();
-    let mut base2: Vec<Option<usize>> = (0..n).map(|_| { let c = g.chance(1, 2); let k = g.below(ng2.max(1)); if ng2 > 0 && c { Some(k) } else { None } }).collect();
+    // only the first 12 glyphs can be grouped: the block of words is fixed in size and must leave room for the masters
+    let mut base1: Vec<Option<usize>> = (0..n).map(|i| { if i >= 12 { return None; } let c = g.chance(1, 2); let k = g.below(ng1.max(1)); if ng1 > 0 && c { Some(k) } else { None } }).collect();
+    let mut base2: Vec<Option<usize>> = (0..n).map(|i| { if i >= 12 { return None; } let c = g.chance(1, 2); let k = g.below(ng2.max(1)); if ng2 > 0 && c { Some(k) } else { None } }).collect();
     base1.truncate(n); base2.truncate(n);
+    // with many glyphs: every ordered glyph pair kerned (several hundred adjustments)
+    let dense = { let c = g.chance(7, 8); n >= 17 && c };
     let n_pairs = 1 + g.below(9);
     let mut base_pairs: Vec<(KRef, KRef, f64)> = vec![];
     for _ in 0..n_pairs {
@@ -580,6 +594,7 @@ fn gen_kerning(f: &mut SynthFont, g: &mut Gen, half: bool) {
         if eg.chance(1, 2) { zero_everywhere.push((x, y)); }
         base_pairs.push((x, y, v / 2.0));
     }
+    if dense { for i in 0..n { for j in 0..n { let v = -(((i * 7 + j * 3) % 90) as f64) - 5.0; if !base_pairs.iter().any(|(x, y, _)| *x == KRef::Glyph(i) && *y == KRef::Glyph(j)) { base_pairs.push((KRef::Glyph(i), KRef::Glyph(j), v)); } } } }
     let full: Vec<usize> = f.full_sources().map(|(i, _)| i).collect();
     for si in full {
         let mut mg = g.fork(28);
